@@ -215,8 +215,24 @@ def confirm(records):
     finally:
         import shutil
         shutil.rmtree(td, ignore_errors=True)
-    out = [confirmed[i] for i in sorted(confirmed)] + records[CONFIRM_CAP:]
-    return out, [pending[i] for i in sorted(pending)]
+    # Only outcomes that can depend on the interpreter configuration (set order, recursion limit) need a real
+    # interpreter to vouch for them.  Anything else was observed on the real code in this very process: if its
+    # snippet does not fail again, the snippet is incomplete, not the observation, so it is still reported.
+    import re as _re
+    kept, dropped = {}, []
+    for i in sorted(pending):
+        r = pending[i]
+        sensitive = r.get('order_dependent') or r.get('order_sensitive') or 'RecursionError' in r['key'] \
+            or _re.search(r'\bAny[A-Z(]', r['key']) is not None
+        if sensitive:
+            dropped.append(r)
+        else:
+            r['replay_mismatch'] = True
+            kept[i] = r
+    allc = dict(confirmed)
+    allc.update(kept)
+    out = [allc[i] for i in sorted(allc)] + records[CONFIRM_CAP:]
+    return out, dropped
 
 
 def validate_evidence(path):
